@@ -15,6 +15,7 @@ Inductive rawev :=
 | RHsu (p idx key : int)
 | RRestart
 | RRemove (p : int)
+| RReconf (tbl : list (list int)) (rm : list int)
 | RAge (p ms : int)                       (* milliseconds *)
 | RDg (l : list rawdg)
 | RDgFail (l : list rawdg).
@@ -55,6 +56,7 @@ Definition dec_ev (r : rawev) : event :=
   | RHsu p i k => HandshakeUnconf (ni p) (ni i) (ni k)
   | RRestart => Restart
   | RRemove p => Remove (ni p)
+  | RReconf t rm => Reconf (effective (map dec_entry t)) (map ni rm)
   | RAge p s => Age (ni p) (ni s * 1000000)
   | RDg l => Dgrams (map dec_dg l)
   | RDgFail l => DgramsTunFail (map dec_dg l)
@@ -121,7 +123,7 @@ Fixpoint check_cases (ks : list case) (idx : N) : list (N * N * N) :=
    [0 not transport / too short; 1 unknown index; 2 keypair expired; 3 does not authenticate;
     4 replayed or behind the window; 5 keepalive; 6 IPv4 length/header refused; 7 IPv6 length/header refused;
     8 other version nibble; 9 source not allowed; 10 written; 11 handshakes; 12 age shifts;
-    13 unconfirmed handshakes; 14 restarts; 15 accepted under the unconfirmed key (promotion); 16 peers removed] *)
+    13 unconfirmed handshakes; 14 restarts; 15 accepted under the unconfirmed key (promotion); 16 peers removed; 17 multi-section reconfigurations] *)
 Fixpoint bump (l : list N) (i : nat) : list N :=
   match l, i with
   | [], _ => []
@@ -180,6 +182,7 @@ Fixpoint stat_evs (st : state) (evs : list event) (a : list N) : list N :=
   | HandshakeUnconf p i k :: t => stat_evs (fst (step st (HandshakeUnconf p i k))) t (bump a 13)
   | Restart :: t => stat_evs (fst (step st Restart)) t (bump a 14)
   | Remove p :: t => stat_evs (fst (step st (Remove p))) t (bump a 16)
+  | Reconf tb rm :: t => stat_evs (fst (step st (Reconf tb rm))) t (bump a 17)
   | Age p n :: t => stat_evs (fst (step st (Age p n))) t (bump a 12)
   end.
 
@@ -190,4 +193,4 @@ Definition stats_case (a : list N) (c : case) : list N :=
   | Crashed => a
   end.
 
-Definition stats (ks : list case) : list N := fold_left stats_case ks [0;0;0;0;0;0;0;0;0;0;0;0;0;0;0;0;0].
+Definition stats (ks : list case) : list N := fold_left stats_case ks [0;0;0;0;0;0;0;0;0;0;0;0;0;0;0;0;0;0].
